@@ -55,7 +55,7 @@ def _run_task(arg):
         c = REGISTRY[key]
         cfg = Config()
         if tier == "thorough":
-            cfg.oblig_timeout_ms = 60000
+            cfg.oblig_timeout_ms = 180000
         from .engine import Explorer
 
         if getattr(c, "static_only", False):
@@ -85,7 +85,10 @@ def _run_task(arg):
             r = t.run()
         finally:
             Explorer.__init__ = orig_init
-        return r.__dict__
+        d = dict(r.__dict__)
+        # results cross a process boundary: keep only plain data (models may hold solver objects)
+        d["obligations"] = [{k: (_jsonable(v) if k in ("model", "detail", "path") else v) for k, v in o.items()} for o in d["obligations"]]
+        return d
     except KeyError as e:
         return {"name": f"{pid}/{key}", "target": key, "status": "stale", "message": f"not found: {e}", "obligations": [], "paths": 0, "solver_time": 0.0, "wall": 0.0, "source_hash": None, "used_contracts": [], "inlined": [], "queries": 0, "property": pid}
     except Exception as e:  # noqa: BLE001
@@ -298,7 +301,7 @@ def check_property(pid, tier="quick", seed=0, manifest_level="proof", jobs=None,
             for fail in chk.get("failures", []):
                 kf = match_known_bounded(active_known, chk["name"], fail)
                 if kf is not None:
-                    known_hits.setdefault(f"bounded:{chk['name']}", kf["id"])
+                    known_hits.setdefault(f"bounded:{chk['name']}:{kf['id']}", kf["id"])
                     continue
                 fn = os.path.join("replay", pid, f"bounded__{chk['name']}__{len(violations)}.json".replace("/", "_"))
                 with open(os.path.join(ROOT, fn), "w", encoding="utf-8") as f:
